@@ -28,11 +28,14 @@ theorem C08_sound (f : Fn) (readsSwitches : Bool) (hs : Sound f readsSwitches = 
     | none => rfl
   · simp [hc]
 
-/-- per cached function of the source: (uncovered switch reads = ∅) ∧ (no cached container handed out); and no hidden module state -/
+/-- per cached function of the source: (uncovered switch reads = ∅) ∧ (no cached container handed out); no hidden module state; and no
+function of the library rebinds a module-level name or assigns an attribute of an imported module (the two switches are written by the
+caller only); every decorator in the library is one the model understands (`functools.lru_cache` with its extracted key, property /
+setter, dataclass) — a home-made caching decorator is outside the memo model -/
 theorem C08_extracted :
     (Effects.caches.all fun r => !r.2.1 || (r.2.2.2.1.isEmpty && !r.2.2.2.2)) = true ∧
     (Effects.caches.all fun r => !r.2.2.2.2) = true ∧
-    Effects.hiddenModuleState = [] := by
+    Effects.hiddenModuleState = [] ∧ Effects.moduleStateWriters = [] ∧ Effects.unknownDecorators = [] := by
   decide
 
 /-- sensitivity / non-vacuity: the state of the source before the repair (key without switches, container handed out) is not sound,
